@@ -36,7 +36,7 @@ def scenarios():
     out.append({"name": "run-j3-git-disabled-in-a-repository", "cmd": "run", "jobs": 3, "git": "disabled-repo", "prior": True, "complete_only": True})
     # other ways of having (or not having) uncommitted changes: staged only, a staged new file, a deleted tracked
     # file, untracked files only (not a change of the committed state)
-    for g in ("staged", "staged-new-file", "deleted", "untracked-only"):
+    for g in ("staged", "staged-new-file", "deleted", "untracked-only", "touched"):
         out.append({"name": "run-seq-git-" + g, "cmd": "run", "jobs": None, "git": g, "prior": False, "complete_only": True})
     out.append({"name": "run-j3-unrelated-children", "cmd": "run", "jobs": 3, "git": "none", "prior": False, "prefork": [[15, 0], [40, 0], [90, 0], [160, 0]]})
     out.append({"name": "run-seq-unrelated-children", "cmd": "run", "jobs": None, "git": "none", "prior": True, "prefork": [[10, 0], [60, 0], [140, 0], [250, 0]]})
@@ -84,6 +84,10 @@ def build(scroot, scn):
             realrun.git(pr.root, "add", "new.txt")
         elif scn["git"] == "deleted":
             os.unlink(os.path.join(pr.root, "src.txt"))
+        elif scn["git"] == "touched":
+            # same content, other time stamps (touch, a copied checkout, a restored backup): not a change
+            st0 = os.stat(os.path.join(pr.root, "src.txt"))
+            os.utime(os.path.join(pr.root, "src.txt"), (st0.st_atime + 1000, st0.st_mtime + 1000))
         elif scn["git"] == "untracked-only":
             open(os.path.join(pr.root, "scratch-notes.txt"), "w").write("never added\n")
     if scn["prior"]:
@@ -260,8 +264,9 @@ def crash_group(arg):
         for k, nth in ks:
             shutil.rmtree(pr.root, ignore_errors=True)
             shutil.copytree(pristine, pr.root, symlinks=True)
-            if scn["git"] != "none":
-                # copying changes stat data; without a refresh `git diff-index` reports stat-dirty files
+            if scn["git"] not in ("none", "touched"):
+                # copying changes stat data; the scenarios that are about something else start from a refreshed index
+                # ("touched" is about exactly this: a copied checkout whose content equals HEAD is clean)
                 realrun.git(pr.root, "update-index", "-q", "--refresh", check=False)
             open(pr.log, "w").close()
             pr._pos = 0
@@ -300,7 +305,10 @@ def crash_case(scn, k, nth, pr, extra, sc):
         head = None
         if scn["git"] != "none":
             # dirty = the committed state differs from index or work tree for tracked paths (independent porcelain query)
-            head = (realrun.git(pr.root, "rev-parse", "HEAD"), bool(realrun.git(pr.root, "status", "--porcelain", "--untracked-files=no"))) if scn["git"] != "disabled-repo" else (None, False)
+            if scn["git"] == "touched":
+                head = (realrun.git(pr.root, "rev-parse", "HEAD"), False)   # (asking `git status` here would refresh the index and undo the scenario)
+            else:
+                head = (realrun.git(pr.root, "rev-parse", "HEAD"), bool(realrun.git(pr.root, "status", "--porcelain", "--untracked-files=no"))) if scn["git"] != "disabled-repo" else (None, False)
         argv = command(scn, pr, extra, sc.root)
         note = os.path.join(sc.root, "crash-note.json")
         kw = {}
